@@ -218,6 +218,7 @@ partial def whyKw : Kw → List String
   | .anyOf js => (if decide ((jsList js).length > 1) && (jsList js).any admitsNull then ["nullable-union"] else []) ++ ((jsList js).map why).flatten
   | .oneOf js => (if decide ((jsList js).length > 1) && (jsList js).any admitsNull then ["nullable-union"] else []) ++ ((jsList js).map why).flatten
   | .allOf js => (if decide ((jsList js).length > 1) && (jsList js).any hasStrictSide then ["intersection"] else [])
+      ++ (if decide ((jsList js).length > 1) && (jsList js).all admitsNull then ["nullable-intersection"] else [])
       ++ ((jsList js).map why).flatten
   | .ref j => why j
   | .not j => why j
